@@ -7,6 +7,7 @@ import (
 	"context"
 	"fmt"
 	"runtime"
+	"strings"
 	"sync"
 	"sync/atomic"
 	"time"
@@ -108,6 +109,68 @@ func Run(r *ev.Run, prop string, rounds int, journal func(string)) {
 			}
 			cs.Close()
 			cold.Close()
+			// a process that starts now serves the first requests of several sessions at once: they all miss its empty
+			// system-key cache at the same moment; every one of them, and requests that come later, must succeed
+			late := w.Factory(cfg, svc, "prod")
+			var lateArrived atomic.Int32
+			w.MS.Gate = func(c *probe.MSCall) {
+				// their intermediate-key reads leave the metastore together, so that they reach the shared system-key
+				// cache together (bounded spin; decides nothing)
+				if c.Op == "load" && strings.HasPrefix(c.ID, "_IK_") {
+					lateArrived.Add(1)
+					for i := 0; i < 20000 && lateArrived.Load()%procs != 0; i++ {
+						runtime.Gosched()
+					}
+				}
+			}
+			var lwg sync.WaitGroup
+			lstart := make(chan struct{})
+			lerrs := make([]error, procs)
+			for i := 0; i < procs; i++ {
+				i := i
+				o := outs[i]
+				if o.d == nil {
+					continue
+				}
+				lwg.Add(1)
+				go func() {
+					defer lwg.Done()
+					s, err := late.GetSession(part)
+					if err != nil {
+						lerrs[i] = err
+						return
+					}
+					defer s.Close()
+					<-lstart
+					if got, err := s.Decrypt(ctx, *world.CopyDRR(o.d)); err != nil || !bytes.Equal(got, o.pl) {
+						lerrs[i] = fmt.Errorf("decrypt: %v", err)
+					}
+				}()
+			}
+			close(lstart)
+			lwg.Wait()
+			w.MS.Gate = nil
+			for k := 0; k < 2; k++ {
+				ls, _ := late.GetSession(part)
+				for i, o := range outs {
+					if o.d == nil || lerrs[i] != nil {
+						continue
+					}
+					if got, err := ls.Decrypt(ctx, *world.CopyDRR(o.d)); err != nil || !bytes.Equal(got, o.pl) {
+						lerrs[i] = fmt.Errorf("a later decrypt on the same process: %v", err)
+					}
+				}
+				ls.Close()
+			}
+			late.Close()
+			for i, err := range lerrs {
+				r.Eval(1)
+				if err != nil {
+					bad++
+					r.Violation(sigDecrypt, fmt.Sprintf("concurrent creators (%s), round %d: a process whose sessions start together cannot decrypt the record returned to process %d: %v", be, round, i, err), map[string]any{"engine": "creators/late-process", "backend": be, "round": round})
+					break
+				}
+			}
 			for i, f := range facts {
 				if sess[i] != nil {
 					sess[i].Close()
